@@ -10,20 +10,16 @@ import vf
 import ratchet   # helpers of the C02/C14 check (not modified)
 
 PKG = "pkg/secretstore"
-A_FILES = ["vf_world_verif_test.go", "vf_announce_verif_test.go"]
+# one overlay (one compiled test package) for both drivers
+FILES = ["vf_world_verif_test.go", "vf_announce_verif_test.go"] + [f for f in ratchet.FILES if f != "vf_world_verif_test.go"]
 A_MON = ("MonAnnounce", "Mon_Announce.cfg")
 A_CONF = ("TraceAnnounce", "Trace_Announce.cfg")
 A_DRV = "^TestVerifAnnounceReplay$"
 
 
 # ------------------------------------------------------------------ (a)
-def _a_nontrivial(sc):
-    """a wrong-recipient / wrong-group / wrong-sender attempt that shares at least the keys, or a legitimate one"""
-    return True
-
-
 def part_a(ctx, info, replay_obj=None):
-    ov = ctx.overlay({PKG: A_FILES})
+    ov = ctx.overlay({PKG: FILES})
     if replay_obj is not None:
         scripts = [replay_obj["script"]]
     else:
@@ -84,7 +80,7 @@ def _b_focus(h):
 
 
 def part_b(ctx, info, replay_obj=None):
-    ov = ctx.overlay({PKG: ratchet.FILES})
+    ov = ctx.overlay({PKG: FILES})
     quick = ctx.tier == "quick"
     groups = {}
     if replay_obj is not None:
